@@ -103,6 +103,12 @@ def run(tier, seed):
             return []
         cases = list(cases)
         rng.shuffle(cases)                       # spread the expensive events over the shards
+        # debugging aids for mutation experiments (never set by registered runs): restrict the parts / cap the cases
+        only = os.environ.get("VERIF_C13_ONLY")
+        if only and label not in only.split(","):
+            return []
+        if os.environ.get("VERIF_C13_MAX"):
+            cases = cases[:int(os.environ["VERIF_C13_MAX"])]
         evs, _ = conf.run(label, cfg, name, DRV, cases, SPEC, bdir=bdir, nontrivial=nontrivial, min_per_shard=1,
                           driver_timeout=1500, tlc_timeout=2400)
         for e in evs:
@@ -151,13 +157,13 @@ def run(tier, seed):
         part("std256-basic", "std256", missing("std256", cs) + cases, bdir=bdir)
         # ---- BLS12-381: G1 (11-isogeny + SSWU, the RFC 9380 suite shape) and G2 (3-isogeny over F_p2)
         cs = discover("b12-381", wd)
-        cases = missing("b12-381", cs) + ep_cases(cs, rng, True, 40, True)
+        cases = missing("b12-381", cs) + ep_cases(cs, rng, True, 40, True) + ["rfc9380_bls12381g1 id30"]
         part("b12-381-ep", "b12-381", cases)
         c2 = ["map_params2 pairf"]
         for op, cnt in (("ep2_map_sswum", 24), ("ep2_map_basic", 8), ("ep2_map_swift", 8)):
             c2 += gen_map.message_cases("pairf", [op], rng, msgs(rng, cnt))
         part("b12-381-ep2", "b12-381", c2)
-        # ---- Edwards 25519 (Elligator 2 + cofactor 8): validity and determinism; constructive under C17
+        # ---- Edwards 25519 (Elligator 2 + cofactor 8)
         ce = gen_map.message_cases("ed", ["ed_map"], rng, msgs(rng, 40))
         for dl in (0, 1, 5, 255, 256):
             for n in msgs(rng, 6):
@@ -168,8 +174,9 @@ def run(tier, seed):
                       "SSWU + 11-isogeny (B12_P381, thorough)", "ep_map_basic (either root)", "ep_map_swift (a = 0 curves; "
                       "refusal elsewhere)", "ep2_map_sswum: SvdW on the BN_P256 twist, SSWU + 3-isogeny on the B12_P381 twist "
                       "(thorough), cofactor clearing as one effective scalar", "ep2_map_basic (either root)",
-                      "eb_map (NIST_B283, NIST_K283; either root)"],
-        validity_only=["ep2_map_swift", "ed_map / ed_map_dst (ed255, thorough)"])
+                      "eb_map (NIST_B283, NIST_K283; either root)",
+                      "ed_map / ed_map_dst (edwards25519: Elligator 2 + rational map + [8]; ed255 build, thorough)"],
+        validity_only=["ep2_map_swift"])
     ev.cov["events_by_op_and_curve"] = cover
     return conf.finish()
 
